@@ -68,10 +68,18 @@ def _fold(iv: tuple, ignorecase: bool, ascii_only: bool) -> tuple:
                 if x <= y:
                     out.append((x + delta, y + delta))
         else:
-            if hi - lo > 64:
+            # sre: a character matches when its simple lower-case form is in the set of lower-case forms of the
+            # class (plus the listed special cases)
+            if hi - lo > 0x30000:
                 raise AnalysisError("TERM-SEM: case-insensitive class too wide to expand")
+            _unicode_partners(lo)  # builds the inverse table
+            lows: set[int] = set()
             for c in range(lo, hi + 1):
-                out.extend((p, p) for p in _unicode_partners(c))
+                l_ = _sre.unicode_tolower(c)
+                lows.add(l_)
+                lows.update(_cf._EXTRA_CASES.get(l_, ()))  # noqa: SLF001
+            assert _INV is not None
+            out.extend((d, d) for l_ in lows for d in _INV.get(l_, ()))
     return norm(out)
 
 
